@@ -477,6 +477,16 @@ def ieee_obligations(check, lows, types):
                         text_extra=pd.decls() + pa.decls(),
                         backend=['cvc5', 'sat'], timeout=150, predicate=pred, includes=tu.TENSOR_HEADERS, replay_extra=extra)
             check.assume('modular step: Determinant()/Adjugate() are replaced at their call sites by contracts over uninterpreted functions of the stored components (their bodies are verified separately by the REAL obligations)')
+
+            def gen_scaled(rnd, lt):
+                # well-conditioned tensors over many magnitudes: a guard that is not "determinant != 0" shows at the extremes
+                if lt[0] != 'f':
+                    return 0
+                if not hasattr(rnd, '_phqv_scale') or rnd.random() < 0.12:
+                    rnd._phqv_scale = Fraction(2) ** rnd.choice([-40, -24, -12, 0, 12, 24])
+                return Fraction(rnd.choice([-7, -5, -3, -2, -1, 1, 2, 3, 4, 5, 7, 8])) * rnd._phqv_scale
+            j.gen = gen_scaled
+            j.search_tries = 24
             jobs.append(j)
             check.under_contract(inv)
     for j, ob in zip(jobs, pmap(lambda j: j.run(), jobs)):
